@@ -487,8 +487,10 @@ pub fn oracle_c17(case: &SimCase, run: &SimRun) -> Verdict {
                     if h.depends_on_declared_failure(i) {
                         continue;
                     }
-                    if h.requested_before(i, k) && g.leaf_deps(i).iter().all(|&d| h.ready_before(d, k))
-                    {
+                    // Requests propagate through the whole closure without waiting for anything
+                    // (a target asks for all its dependencies, both kinds, on its first request):
+                    // once no message is pending, every closure target counts as requested.
+                    if g.leaf_deps(i).iter().all(|&d| h.ready_before(d, k)) {
                         waiting.insert(i, k);
                     }
                 }
